@@ -81,15 +81,34 @@ def tv_defect_candidates(prop, spec, vectorized):
                 zd_opts.append(tuple(sorted(x for x in und if (x[1], x[2]) in sub)))
                 if len(zd_opts) > 16:
                     break
+    # in-node consumers of a variable that also feeds delayed edges read the delayed copy
+    ind_opts = [{}]
+    if 'innode-consumer-reads-delayed' in open_ids:
+        per_var = {}
+        for i, e in enumerate(spec.edges):
+            if e.delay is None and e.spread is None:
+                continue
+            sn, so, sv = e.src.rsplit('/', 2)
+            consumed = any(o2 != so and sv in spec.ops[o2].vars and spec.ops[o2].vars[sv][0] == 'input'
+                           for o2 in spec.nodes[sn].ops)
+            if consumed and spec.ops[so].output == sv:
+                per_var.setdefault((sn, so, sv), []).append(i)
+        if per_var:
+            keys = sorted(per_var)
+            for choice in itertools.islice(itertools.product(*[per_var[k] for k in keys]), 16):
+                ind_opts.append(dict(zip(keys, choice)))
     for m, wf in masks:
         for zd in zd_opts:
-            ids = []
-            if m:
-                ids.append('same-source-node-edges')
-            if zd:
-                ids.append('undriven-default-dropped')
-            if ids:
-                yield ids, dict(edge_mask=m, zero_default=zd, weight_from=wf)
+            for ind in ind_opts:
+                ids = []
+                if m:
+                    ids.append('same-source-node-edges')
+                if zd:
+                    ids.append('undriven-default-dropped')
+                if ind:
+                    ids.append('innode-consumer-reads-delayed')
+                if ids:
+                    yield ids, dict(edge_mask=m, zero_default=zd, weight_from=wf, innode_delayed=ind)
 
 
 _GEN_SUFFIX = re.compile(r'^(.+?)(_v\d+|_in\d+)$')
@@ -149,3 +168,26 @@ def _m_par_keyerror(job, rec, k):
         attrs = tuple(sorted(a for a in ('weight', 'delay', 'spread') if getattr(e, a) is not None))
         groups.setdefault((e.src, e.tgt, e.template), set()).add(attrs)
     return any(len(a) > 1 for a in groups.values())
+
+
+def _innode_consumed_delayed_sources(spec):
+    out = []
+    for i, e in enumerate(spec.edges):
+        if e.delay is None and e.spread is None:
+            continue
+        sn, so, sv = e.src.rsplit('/', 2)
+        if spec.ops[so].output == sv and any(o2 != so and sv in spec.ops[o2].vars and spec.ops[o2].vars[sv][0] == 'input'
+                                            for o2 in spec.nodes[sn].ops):
+            out.append((sn, so, sv))
+    return out
+
+
+@matcher('innode-consumer-reads-delayed')
+def _m_innode(job, rec, k):
+    """loud variant: with vectorize=True the delayed copy has one entry per delayed edge, not one per node, so the
+    in-node operator fails on a shape mismatch"""
+    if not job.get('vectorize') or not _innode_consumed_delayed_sources(job['spec']):
+        return False
+    w = rec.get('what', '')
+    return (rec.get('kind') in ('compile-raises', 'emitted-function-raises') and
+            ('could not be broadcast together' in w or 'out of bounds' in w or 'invalid index' in w))
